@@ -75,13 +75,18 @@ func TestVerif_C12_Twin(t *testing.T) {
 		if class == 4 {
 			spec = c12VirtualHosts(rng)
 		}
-		if class == 1 && rng.Intn(2) == 0 {
-			// the shape the property names: header-conditioned entry ahead of an unconditional one
+		if class == 1 {
+			// the shape the property names: header-conditioned entry ahead of an unconditional
+			// one, in the same rule or in an earlier rule matching the same host
 			p := pick(rng, genPaths)
-			spec.Rules = append([]gRule{{Paths: []gPath{
-				{Path: p, Backend: "be-canary", Headers: []gHeader{{Key: "X-V", Values: []string{"canary"}}}},
-				{Path: p, Backend: "be-stable"},
-			}}}, spec.Rules...)
+			canary := gPath{Path: p, Backend: "be-canary", Headers: []gHeader{{Key: "X-V", Values: []string{"canary"}}}}
+			stable := gPath{Path: p, Backend: "be-stable"}
+			switch rng.Intn(3) {
+			case 0:
+				spec.Rules = append([]gRule{{Paths: []gPath{canary, stable}}}, spec.Rules...)
+			case 1:
+				spec.Rules = append([]gRule{{Paths: []gPath{canary}}, {Paths: []gPath{stable}}}, spec.Rules...)
+			}
 		}
 		cached := *spec
 		cached.CacheSize = sizes[rng.Intn(len(sizes))]
